@@ -46,6 +46,13 @@ func formatSchema(g *Gen, depth int) M {
 		if r.Chance(300) {
 			s["additionalProperties"] = formatSchema(g, depth-1)
 		}
+		if r.Chance(400) {
+			// a sibling that is absent from the instance and has a default (it is "created from defaults")
+			props[pick(r, propNames)+"0"] = M{"type": "string", "default": "x"}
+			if r.Chance(500) {
+				s["required"] = []any{pick(r, propNames) + "0"}
+			}
+		}
 		return s
 	case 2:
 		return M{"type": "array", "items": formatSchema(g, depth-1)}
